@@ -174,6 +174,18 @@ def wfailLine (t : Ty) (name : B) (v : Val) (spec : String) : String :=
   let r := if kk < s.length then "err" else if ff then "err" else "ok:" ++ toString s.length
   "wfail " ++ r ++ " " ++ maskedHex acc (m.take kk)
 
+/-- one load of a file through a file-backed entry point; the mapping flags (`map:1`) never change the outcome -/
+def floadLine (t : Ty) (loaderSpec : String) (bytes : B) : String :=
+  let loader := (loaderSpec.splitOn ":").headD ""
+  let status : String := match loader with
+    | "full" => showRes (fun _ => "") (t.deFull H bytes)
+    | _ =>
+      let l := match loader with | "mem" => Loader.mem | "mmap" => Loader.mmap | _ => Loader.map
+      -- mmap-rs refuses to create a mapping of length zero (both mapping loaders, before any byte is read)
+      if bytes.isEmpty && loader != "mem" then "err other invalid_size"
+      else showRes (fun _ => "") (t.deEps H 0 (regionOf l bytes))
+  "fload " ++ status.trimAscii.toString
+
 def step (st : St) (line : String) : St × Option String :=
   match line.trimAscii.toString.splitOn " " with
   | ["name", i, h] =>
@@ -302,18 +314,16 @@ def step (st : St) (line : String) : St × Option String :=
                    " panics=" ++ toString (if status == "panic" then n else 0) ++ " heap=0 maps=0"))
       | _, _ => (st, some "badval")
   | ["dropcheck", _, _] => (st, some "dropcheck ok")     -- the region outlives the structure (Resources.loadTrace: release after the last use)
+  | ["floadc", i, loader, cut, val] =>
+      match i.toNat?.bind (st.types[·]?), cut.toNat?, parseVal val with
+      | some t, some c, some v =>
+        if !t.wt v then (st, some "illtyped") else
+        let s := t.ser H (st.names.getD i.toNat! []) v
+        (st, some (floadLine t loader (s.take (s.length - c))))
+      | _, _, _ => (st, some "badval")
   | ["fload", i, loader, h] =>
       match i.toNat?.bind (st.types[·]?) with
-      | some t =>
-        let bytes := unhex h.toList
-        let status : String := match loader with
-          | "full" => showRes (fun _ => "") (t.deFull H bytes)
-          | _ =>
-            let l := match loader with | "mem" => Loader.mem | "mmap" => Loader.mmap | _ => Loader.map
-            -- mmap-rs refuses to create a mapping of length zero (both mapping loaders, before any byte is read)
-            if bytes.isEmpty && loader != "mem" then "err other invalid_size"
-            else showRes (fun _ => "") (t.deEps H 0 (regionOf l bytes))
-        (st, some ("fload " ++ status.trimAscii.toString))
+      | some t => (st, some (floadLine t loader (unhex h.toList)))
       | none => (st, some "badval")
   | ["alloc", i, r, val] =>
       match i.toNat?.bind (st.types[·]?), r.toNat?, parseVal val with
